@@ -710,9 +710,10 @@ class History:
 
     def op_meta_append(self, step):
         s, v, m = self.pick(step)
-        key = META_KEYS[step["key"]]
-        if not isinstance(m.metadata.get(key), list):
+        lists = [k for k in META_KEYS if isinstance(m.metadata.get(k), list)]
+        if not lists:
             return False
+        key = lists[step["key"] % len(lists)]
         self.must("v#%d.metadata[%r].append(%r)" % (s, key, step["x"]), lambda: v.metadata[key].append(step["x"]))
         m.metadata[key].append(step["x"])
 
